@@ -37,6 +37,9 @@ inductive EndCause
   | badLine
   /-- `handle_request` raised: `except Exception: break` -/
   | raised (c : Crash)
+  /-- `readline()` raised `ValueError` ("Separator is found, but chunk is longer than limit"): the newline came after
+      more than `limit` bytes of the `StreamReader`: `except Exception: break` -/
+  | tooLong
 deriving DecidableEq, Repr
 
 /-- the loop of one `handle_client` call -/
@@ -47,12 +50,14 @@ structure Conn where
   ended : Option EndCause := none
   /-- `len(response_times)` -/
   served : Nat := 0
+  /-- the `limit` of the connection's `StreamReader` (what `run()` passes to `asyncio.start_server`; default 2 ** 16) -/
+  limit : Nat := 65536
 deriving DecidableEq, Repr
 
 def Conn.alive (c : Conn) : Bool := c.ended.isNone
 
 /-- a new connection to a server whose transport was created at `t0` -/
-def Conn.opened (t0 : Nat) : Conn := { ts := ⟨SrvState.init, t0⟩ }
+def Conn.opened (t0 : Nat) (limit : Nat := 65536) : Conn := { ts := ⟨SrvState.init, t0⟩, limit := limit }
 
 /-- `if uds_response_raw is not None: writer.write(hexlify(uds_response_raw) + b"\n")` -/
 def lineOf : Option Server.Resp → Bytes
@@ -63,6 +68,7 @@ def lineOf : Option Server.Resp → Bytes
     `handle_request` and the random decisions of the handler call; returns the loop and what was written -/
 def serveLine (m : Model) (c : Conn) (l : Bytes) (start stop : Nat) (o : Orc) : Conn × Bytes :=
   if !c.alive then (c, []) else
+  if l.length > c.limit then ({ c with ended := some .tooLong }, []) else
   match decodeLine l with
   | .msg b =>
     match vecuHandleSE allOn m c.ts ⟨start, stop, b, o⟩ with
@@ -95,9 +101,10 @@ def runConn (m : Model) (c : Conn) : List Event → Conn × Bytes
     (c'', w ++ w')
 
 /-- what an event does to a serving loop: `none` = it keeps serving -/
-def Event.endCause : Event → Option EndCause
+def Event.endCause (limit : Nat) : Event → Option EndCause
   | .eof _ => some .eof
   | .line l _ _ _ =>
+    if l.length > limit then some .tooLong else
     match decodeLine l with
     | .msg [] => some (.raised .index)     -- an empty (or all-whitespace) line: `request.service_id` of `b""`
     | .msg _ => none
@@ -137,7 +144,7 @@ structure Sys where
   rbuf : Bytes := []
 deriving DecidableEq, Repr
 
-def Sys.opened (t0 : Nat) : Sys := { conn := Conn.opened t0 }
+def Sys.opened (t0 : Nat) (limit : Nat := 65536) : Sys := { conn := Conn.opened t0 limit }
 
 /-- the server consumes one complete line of its stream, if there is one -/
 def serverPump (m : Model) (c : Conn) (sbuf : Bytes) (start stop : Nat) (o : Orc) : Conn × Bytes × Bytes :=
